@@ -80,10 +80,39 @@ def run(ctx):
         run.missing("C04.R2", "a5::core::cell_info::AUTHALIC_AREA")
         return
     tab = fn_table(facts, AREA, range(-2, 31))
+    # the literals may live in a constant table read with `.get(resolution as usize)` / indexing instead of a match
+    fa = fn_terms(facts, AREA)
+    from ..query import _cval, ieval, Undetermined, returns_under as _ru, deep_resolve as _dr
+    lookups = [c for c in fa.calls() if c.callee and c.callee.split("::")[-1] in ("get", "index") and len(c.args) == 2]
+    table_val = None
+    if len(lookups) == 1:
+        tv = _cval(fa, lookups[0].args[0], {})
+        if isinstance(tv, (list, tuple)) and tv and all(isinstance(x, float) for x in tv):
+            table_val = list(tv)
     n_lit = 0
     for r in range(-2, 31):
         t = tab[r]
         v = const_tree(t) if t is not None else None
+        if t is None and table_val is not None:
+            lk = lookups[0]
+            call_t = ("call", lk.callee, tuple(lk.args), (fa.path, lk.block))
+            try:
+                idx = ieval(fa, lk.args[1], {("param", 1): r})
+            except Undetermined:
+                idx = None
+            if idx is not None:
+                hit = 0 <= idx < len(table_val)
+                A = {("param", 1): r, strip_site(("discr", call_t)): 1 if hit else 0}
+                rs = [_dr(fa, x, A) for x in _ru(fa, A)]
+                if len(rs) == 1:
+                    t = rs[0]
+                    leaf = t
+                    while leaf[0] in ("deref", "ref"):
+                        leaf = leaf[1] if leaf[0] == "deref" else leaf[2]
+                    if hit and leaf[0] == "payload" and leaf[1] == "Some" and strip_site(leaf[2]) == strip_site(call_t):
+                        v = table_val[idx]
+                    elif not hit:
+                        v = const_tree(t)
         if r < 0:
             run.inst("C04.R2", "area[%d]" % r, v == total, "cell_area(%d) = %s (whole authalic sphere %s)" % (r, v, total), nontrivial=False)
             continue
